@@ -14,6 +14,8 @@ use std::time::Duration;
 use tokio::sync::mpsc::{unbounded_channel, UnboundedReceiver, UnboundedSender};
 
 thread_local! {
+    /// values captured by task futures that are currently alive (C20)
+    static TASK_STATE_LIVE: RefCell<i64> = const { RefCell::new(0) };
     static OBS: RefCell<Vec<Vec<Value>>> = const { RefCell::new(Vec::new()) };
     static TICK: RefCell<Duration> = const { RefCell::new(Duration::from_secs(1)) };
 }
@@ -38,12 +40,26 @@ async fn poll_once<F: Future>(mut f: Pin<&mut F>) {
     .await;
 }
 
+struct Captured;
+impl Captured {
+    fn new() -> Self {
+        TASK_STATE_LIVE.with(|l| *l.borrow_mut() += 1);
+        Captured
+    }
+}
+impl Drop for Captured {
+    fn drop(&mut self) {
+        TASK_STATE_LIVE.with(|l| *l.borrow_mut() -= 1);
+    }
+}
+
 struct TaskIo {
     tx: Vec<UnboundedSender<()>>,
     rx: Option<(usize, UnboundedReceiver<()>)>,
 }
 
 async fn run_task(task: usize, prog: Vec<Value>, mut io: TaskIo, inc: u32) {
+    let _captured = Captured::new();
     let mut ivl = None;
     for (i, s) in prog.iter().enumerate() {
         let step = i + 1;
@@ -180,6 +196,7 @@ impl Module for AMod {
 }
 
 pub struct AOutcome {
+    pub task_state_live: i64,
     pub obs: Vec<Vec<Value>>,
     pub not_finished: usize,
     pub other_errors: usize,
@@ -189,6 +206,7 @@ pub struct AOutcome {
 pub fn run_programs(progs: &[Vec<Value>], local: bool, tick_ns: u64, max_t: u64) -> AOutcome {
     silence_panics();
     OBS.with(|o| *o.borrow_mut() = vec![Vec::new(); progs.len()]);
+    TASK_STATE_LIVE.with(|l| *l.borrow_mut() = 0);
     TICK.with(|t| *t.borrow_mut() = Duration::from_nanos(tick_ns));
     let r = catch_unwind(AssertUnwindSafe(|| {
         let mut sim = Sim::new(());
@@ -196,7 +214,7 @@ pub fn run_programs(progs: &[Vec<Value>], local: bool, tick_ns: u64, max_t: u64)
         let rt = Builder::seeded(5).quiet().max_time(SimTime::from_duration(Duration::from_nanos(tick_ns) * max_t as u32 + Duration::from_nanos(tick_ns / 2))).build(sim.freeze());
         rt.run()
     }));
-    let mut out = AOutcome { obs: Vec::new(), not_finished: 0, other_errors: 0, panicked: false };
+    let mut out = AOutcome { task_state_live: 0, obs: Vec::new(), not_finished: 0, other_errors: 0, panicked: false };
     match r {
         Err(_) => out.panicked = true,
         Ok(Ok(_)) => {}
@@ -212,6 +230,8 @@ pub fn run_programs(progs: &[Vec<Value>], local: bool, tick_ns: u64, max_t: u64)
         }
     }
     out.obs = OBS.with(|o| o.borrow().clone());
+    // everything (runtime result included) has been dropped by now
+    out.task_state_live = TASK_STATE_LIVE.with(|l| *l.borrow());
     out
 }
 
@@ -272,6 +292,10 @@ pub fn replay(args: &[String]) {
                 }
             }
             if bad {
+                continue;
+            }
+            if out.task_state_live != 0 {
+                fail("state captured by spawned tasks still alive after the simulation was dropped".into(), json!({"got": out.task_state_live}));
                 continue;
             }
             if !restart {
